@@ -118,6 +118,9 @@ func shortFile(f string) string {
 	if i := strings.Index(f, " +0x"); i > 0 {
 		f = f[:i]
 	}
+	if src := os.Getenv("VERIF_PLENC_SRC"); src != "" {
+		f = strings.TrimPrefix(f, src+"/")
+	}
 	return strings.TrimPrefix(f, "/repo/")
 }
 
